@@ -32,11 +32,15 @@ theorem fromRawBytes_cons16 (b0 b1 b2 b3 b4 b5 b6 b7 b8 b9 b10 b11 b12 b13 b14 b
   simp only [fromRawBytes, le32, le16, be16, be48, Outcome.ok.injEq, GUID.mk.injEq, true_and, and_true]
   u16_bits
 
-theorem fromRawBytes_short (b : Bytes) (h : b.length < 16) : fromRawBytes b = .panic := by
+theorem fromRawBytes_short (b : Bytes) (h : b.length < 16) : fromRawBytes b = .ok ⟨0, 0, 0, 0, 0⟩ := by
   unfold fromRawBytes
   split
   · simp only [List.length_cons] at h; omega
   · rfl
+
+theorem fromRawBytes_ok (b : Bytes) : ∃ g, fromRawBytes b = .ok g := by
+  unfold fromRawBytes
+  split <;> exact ⟨_, rfl⟩
 
 theorem fromRaw_toBytes (g : GUID) : fromRawBytes (toBytes g) = .ok { g with E := g.E &&& 0xFFFFFFFFFFFF } := by
   obtain ⟨A, B, C, D, E⟩ := g
@@ -48,11 +52,7 @@ theorem fromRaw_toBytes (g : GUID) : fromRawBytes (toBytes g) = .ok { g with E :
   · u16_bits
   · u64_bits
 
-theorem toBytes_fromRaw (b : Bytes) (g : GUID) (h : fromRawBytes b = .ok g) : toBytes g = b.take 16 := by
-  have hl : 16 ≤ b.length := by
-    by_cases hl : b.length < 16
-    · rw [fromRawBytes_short b hl] at h; simp at h
-    · omega
+theorem toBytes_fromRaw (b : Bytes) (g : GUID) (hl : 16 ≤ b.length) (h : fromRawBytes b = .ok g) : toBytes g = b.take 16 := by
   obtain ⟨b0, b1, b2, b3, b4, b5, b6, b7, b8, b9, b10, b11, b12, b13, b14, b15, rest, rfl⟩ := exists_cons16 b hl
   rw [fromRawBytes_cons16] at h
   simp only [Outcome.ok.injEq] at h
@@ -61,10 +61,11 @@ theorem toBytes_fromRaw (b : Bytes) (g : GUID) (h : fromRawBytes b = .ok g) : to
   refine ⟨?_, ?_, ?_, ?_, ?_, ?_, ?_, ?_, ?_, ?_, ?_, ?_, ?_, ?_, ?_, ?_⟩ <;> u8_bits
 
 theorem fromRaw_E_lt (b : Bytes) (g : GUID) (h : fromRawBytes b = .ok g) : g.E.toNat < 2 ^ 48 := by
-  have hl : 16 ≤ b.length := by
-    by_cases hl : b.length < 16
-    · rw [fromRawBytes_short b hl] at h; simp at h
-    · omega
+  by_cases hl' : b.length < 16
+  · rw [fromRawBytes_short b hl'] at h
+    cases h
+    decide
+  have hl : 16 ≤ b.length := by omega
   obtain ⟨b0, b1, b2, b3, b4, b5, b6, b7, b8, b9, b10, b11, b12, b13, b14, b15, rest, rfl⟩ := exists_cons16 b hl
   rw [fromRawBytes_cons16] at h
   simp only [Outcome.ok.injEq] at h
